@@ -490,6 +490,8 @@ def main():
                 corr["harnesses"].append(hinfo)
     if harness_err:
         broken.append({"name": "harness", "ok": False, "why": harness_err[-1500:]})
+    if not lean["driver_ok"]:
+        broken.append({"name": "model-driver-build", "ok": False, "why": "the Lean model driver does not build, so no correspondence was checked"})
 
     # 5. decide
     if replay:
